@@ -422,6 +422,56 @@ fn count_leading_spaces_scalar(input: &[u8], start: usize) -> usize {
     input[start..].iter().take_while(|&&b| b == b' ').count()
 }
 
+/// Verification hooks (feature `verif-hooks`): the scalar kernels of this
+/// module and of `scalar.rs` callable directly (behind the range guard of the
+/// public wrappers), plus the per-level x86 kernels. Nothing here changes
+/// behaviour; with the feature off this module is not compiled.
+#[cfg(feature = "verif-hooks")]
+pub mod verif {
+    #[cfg(all(
+        target_arch = "x86_64",
+        not(feature = "scalar-yaml"),
+        feature = "std"
+    ))]
+    pub use super::x86::verif as x86;
+
+    pub fn find_quote_or_escape_scalar(input: &[u8], start: usize, end: usize) -> Option<usize> {
+        if start >= end || start >= input.len() {
+            return None;
+        }
+        super::find_quote_or_escape_scalar(input, start, end.min(input.len()))
+    }
+
+    pub fn find_single_quote_scalar(input: &[u8], start: usize, end: usize) -> Option<usize> {
+        if start >= end || start >= input.len() {
+            return None;
+        }
+        super::find_single_quote_scalar(input, start, end.min(input.len()))
+    }
+
+    pub fn find_newline_scalar(input: &[u8], start: usize) -> Option<usize> {
+        if start >= input.len() {
+            return None;
+        }
+        super::find_newline_scalar(input, start)
+    }
+
+    pub fn count_leading_spaces_scalar(input: &[u8], start: usize) -> usize {
+        if start >= input.len() {
+            return 0;
+        }
+        super::count_leading_spaces_scalar(input, start)
+    }
+
+    pub fn parse_anchor_name_scalar(input: &[u8], start: usize) -> usize {
+        super::scalar::parse_anchor_name_scalar(input, start)
+    }
+
+    pub fn find_block_scalar_end_scalar(input: &[u8], start: usize, min_indent: usize) -> usize {
+        super::scalar::find_block_scalar_end_scalar(input, start, min_indent)
+    }
+}
+
 #[cfg(test)]
 mod tests {
     use super::*;
